@@ -26,6 +26,10 @@ import (
 // (5xx or unreachable backend) after the response has already been written.
 var errBackendFailure = errors.New("backend request failed")
 
+// inboundTrailerKey is the context key under which proxyRequest passes the
+// inbound request's announced trailers to the reverse proxy's director.
+type inboundTrailerKey struct{}
+
 // Strategy defines the interface for load balancing strategies
 type Strategy interface {
 	NextBackend(r *http.Request) *Backend
@@ -449,6 +453,18 @@ func (lb *LoadBalancer) AddBackend(backendCfg config.BackendConfig) error {
 	// Create a reverse proxy for this backend with optimized transport
 	proxy := httputil.NewSingleHostReverseProxy(backendURL)
 
+	// Forward request trailers: the reverse proxy clones the inbound request
+	// before its body has been read, so the clone's Trailer map never sees the
+	// values the server fills in when the body ends. Let the outbound request
+	// share the inbound map (see proxyRequest).
+	director := proxy.Director
+	proxy.Director = func(out *http.Request) {
+		director(out)
+		if trailer, ok := out.Context().Value(inboundTrailerKey{}).(http.Header); ok {
+			out.Trailer = trailer
+		}
+	}
+
 	// Pass on every write at once: by default the reverse proxy only flushes
 	// streaming responses without a Content-Length, so bytes a backend flushed
 	// in a response of declared length would wait in the proxy's buffer.
@@ -757,6 +773,9 @@ func (lb *LoadBalancer) proxyRequest(backend *Backend, w http.ResponseWriter, r 
 	}()
 
 	// Forward the request to the selected backend
+	if len(r.Trailer) > 0 {
+		r = r.WithContext(context.WithValue(r.Context(), inboundTrailerKey{}, r.Trailer))
+	}
 	backend.ReverseProxy.ServeHTTP(rw, r)
 
 	// Record metrics and handle passive health checks
